@@ -9,7 +9,8 @@ IDS=("$@")
 [ ${#IDS[@]} -eq 0 ] && IDS=(C01 C02 C03 C04 C05 C06 C07 C08 C09 C10 C11 C12 C13 C14 C15 C16)
 cd /repo || exit 2
 if [ -n "$(git status --porcelain --untracked-files=no)" ]; then echo "/repo is dirty; refusing" >&2; exit 2; fi
-git apply --check "$SEED/patch.diff" || { echo "patch does not apply" >&2; exit 2; }
+# a patch that no longer applies must not leave an earlier detection record standing
+git apply --check "$SEED/patch.diff" || { echo "PATCH DOES NOT APPLY to /repo $(git log --format=%h -1)" | tee "$SEED/detect_${TIER}.txt" >&2; exit 2; }
 git apply "$SEED/patch.diff"
 trap 'cd /repo && git checkout -- . && git status --porcelain --untracked-files=no | head' EXIT
 OUT="$SEED/detect_${TIER}.txt"; : > "$OUT"
